@@ -8,7 +8,7 @@ func init() {
 		Level: "model_checking", CrossSolver: true,
 		Explanation: "bounded symbolic execution of ProfileReader.ReadProfile and Profile.Description: (1) tag tables with k symbolic distinct signatures whose offsets and sizes range over every placement inside a data area of d symbolic bytes (overlapping, shared, gaps, any order; k=0 included) - every stored entry is asserted equal to in[offset:offset+size]; (2) a v2 textDescription reached through a complete profile with padding; (3) multiLocalizedUnicode with r records, symbolic language/country/code units and every placement of the strings in the string area - the description must be the decoding of the bytes at an 'en' record's declared offset when one exists, else at some record's declared offset",
 		Bounds: func(tier string) map[string]interface{} {
-			return map[string]interface{}{"tags": "k<=2, d=8 (thorough k<=3)", "textDescription": "ASCII count 1..4, padding 0..3", "mluc": "r<=2 records, 6 bytes of string storage, strings of 1-2 code units, quick: ASCII units; thorough: any unit incl. surrogates with r=1", "map_order": "Go map iteration order is modelled as insertion order; a second run uses reverse order", "outside": "2000-character strings, 40 records, 64 tags, empty strings"}
+			return map[string]interface{}{"tags": "k<=2, d=8 (thorough k<=3)", "textDescription": "ASCII count 1..4, padding 0..3", "mluc": "r<=2 records, 6 bytes of string storage, strings of 1-2 code units, r<=2 with ASCII units and r=1 with any unit incl. surrogates (thorough: r<=2 with any unit) with r=1", "map_order": "Go map iteration order is modelled as insertion order; a second run uses reverse order", "outside": "2000-character strings, 40 records, 64 tags, empty strings"}
 		},
 		Runs: func(tier string, seed int64) []*Run {
 			tags := int64(2)
@@ -18,9 +18,10 @@ func init() {
 				{H: sym.Harness{Pkg: "meta/icc", Func: "VerifHarness_C17_Mluc", Workers: 14}, ExpectReach: []string{"mluc-read"}, SamplePaths: 4},
 				{H: sym.Harness{Pkg: "meta/icc", Func: "VerifHarness_C17_Mluc", Workers: 14, Cfg: sym.Config{MapOrderRev: true}}, ExpectReach: []string{"mluc-read"}},
 			}
+			runs = append(runs, &Run{H: sym.Harness{Pkg: "meta/icc", Func: "VerifHarness_C17_Mluc", Workers: 14, SetGlobals: map[string]int64{"verifC17Unicode": 1, "verifC17Records": 1}}, ExpectReach: []string{"mluc-read"}, SamplePaths: 4})
 			if tier == "thorough" {
 				tags = 3
-				runs = append(runs, &Run{H: sym.Harness{Pkg: "meta/icc", Func: "VerifHarness_C17_Mluc", Workers: 14, SetGlobals: map[string]int64{"verifC17Unicode": 1, "verifC17Records": 1}}, ExpectReach: []string{"mluc-read"}, SamplePaths: 4})
+				runs = append(runs, &Run{H: sym.Harness{Pkg: "meta/icc", Func: "VerifHarness_C17_Mluc", Workers: 14, SetGlobals: map[string]int64{"verifC17Unicode": 1, "verifC17Records": 2}}, ExpectReach: []string{"mluc-read"}, SamplePaths: 4})
 			}
 			runs = append(runs, &Run{H: sym.Harness{Pkg: "meta/icc", Func: "VerifHarness_C17_TagTable", Workers: 14, MaxPaths: 400000, SetGlobals: map[string]int64{"verifC17Tags": tags}}, ExpectReach: []string{"tagtable-read"}, SamplePaths: 4})
 			return runs
